@@ -244,6 +244,10 @@ def gen_tiny_radius_case(rng):
     elif k == 2:
         o = gen_opts(rng)
         o[11] = max(o[11], 10)
+        if o[0] > radius / 20:          # keep the gyration resolvable: minimum_step <= r / 20
+            f = (radius / 20) / o[0]
+            o[0] *= f
+            o[2] *= f
     pos = [cen[i] + (rng.unit() * 2 - 1) * half[i] * 0.6 for i in range(3)]
     steps = [log_uniform(rng, 1e-2, 1.0) for _ in range(rng.choice([1, 2, 3]))]
     kv = {"geo": gname, "fld": fld, "B": v3(b), "stp": rng.choice(["dp", "dp", "rk4"]), "par": par,
@@ -688,11 +692,19 @@ def check_segment(seg, meta, st, fails, line, xc=None):
         # eps_rel * distance * (1 + n_int); at a boundary the point is taken on the chord (sagitta
         # <= delta_chord + dchord_tol) within delta_intersection
         n_int = sum(1 for t, _ in ev if t == "st")     # >= number of accepted integration steps
-        # (the chord / intersection terms only apply to a boundary landing; otherwise the end
-        # point is the end state of an integration step)
-        tol = (eps_rel * distance * (2.0 + n_int)
-               + ((delta_chord + DCHORD_TOL + 2 * delta_int) if boundary else 0.0)
-               + 1e-9 * (norm(g0[:3]) + distance) + 1e-12)
+        tol_old = (eps_rel * distance * (2.0 + n_int) + (delta_chord + DCHORD_TOL + 2 * delta_int)
+                   + 1e-9 * (norm(g0[:3]) + distance))
+        # sharper: the sagitta allowance (delta_chord) only applies when the end point was taken
+        # on a chord, i.e. at a boundary landing -- otherwise the end point is the end state of an
+        # integration step (the intersection tolerance stays: reported and travelled distance may
+        # differ by it, and the bump is of that size).  It is also kept while the gyration is not
+        # resolved by the driver at all (radius < 100 minimum_step: integration steps are floored
+        # at minimum_step).  The embedded error estimate under-estimates by a small factor (4x).
+        unresolved = rad < 100 * min_sub
+        tol_new = (4 * eps_rel * distance * (2.0 + n_int) + 2 * delta_int
+                   + ((delta_chord + DCHORD_TOL) if (boundary or unresolved) else 0.0)
+                   + 1e-9 * (norm(g0[:3]) + distance))
+        tol = min(tol_old, tol_new)
         st.inc("helix_cases")
         st.max("max_helix_residual_over_tol", resid / tol)
         if meta.get("tiny_radius") or rad < 3e-3:
